@@ -604,6 +604,9 @@ func gen(tier string, emit func(engine.Case) bool) {
 			}
 		}
 	}
+
+	// Family D - three levels of nesting, iterator names re-used across levels
+	genNest3(thorough, out)
 }
 
 // genNest3: family D - three levels of nesting with re-used iterator names.
@@ -1042,12 +1045,31 @@ func judge(c engine.Case) engine.Outcome {
 		if p {
 			return engine.Fail("c18.repeat.panic."+sh.String(), "expanding / decoding the same body a second time panics: %s\n%s\n%s", msg, trimStack(st), desc())
 		}
-		if pb, _, _ := guard(func() {
+		pb, _, _ := guard(func() {
 			ctxB := &hcl.EvalContext{Variables: altGlobals}
 			v, dg := hcldec.Decode(dynblock.Expand(body, ctxB), spec, ctxB)
 			other = result{val: v, err: dg.HasErrors()}
-		}); pb {
+		})
+		if pb {
 			counters.Add("alternative_context_panics", 1)
+		} else if woB := refdec.Expand(d.Body, altGlobals); woB.Undefined == "" && len(woB.Unknown) == 0 {
+			// the result under context B must be B's own write-out, whatever was expanded before
+			if wb, wd := parse(d, woB.Body.Native(), "native"); !wd.HasErrors() {
+				vars := map[string]cty.Value{}
+				for k, v := range altGlobals {
+					vars[k] = v
+				}
+				for k, v := range woB.Vars {
+					vars[k] = v
+				}
+				refB, pmB, _ := decode(wb, spec, nil, &hcl.EvalContext{Variables: vars}, false)
+				if pmB == "" && (refB.err != other.err || (!refB.err && !unmarkDeep(refB.val).RawEquals(unmarkDeep(other.val)))) {
+					return engine.Fail("c18.repeat.second-context-result-wrong."+sh.String(),
+						"the same parsed body was expanded with context A and then with context B (same names, other values):\nExpand+Decode under B: error=%v %s\nwrite-out under B:     error=%v %s\n(result under A:       error=%v %s)\nwrite-out under B:\n%s\n%s",
+						other.err, vfmt.V(other.val), refB.err, vfmt.V(refB.val), impl.err, vfmt.V(impl.val), woB.Body.Native(), desc())
+				}
+				counters.Add("second_context_writeouts_compared", 1)
+			}
 		}
 		p, msg, st = guard(func() {
 			ctxA := &hcl.EvalContext{Variables: Globals}
@@ -1129,7 +1151,7 @@ func main() {
 			"(interleave) every layout of length <= 3 with one principal block over {S,Y,D} (thorough +E) x 5 (10) collections x {default, shadowing} x 2 content forms x K x label forms; " +
 			"(nest) 6 nestings (static z using the outer iterator, dynamic z over a global using both iterators, dynamic z over it.value.kids, dynamic z re-using the outer iterator name, static/dynamic/static z, dynamic z over an unknown) x Kz x 3 layouts x 7 collections x 4 iterators x 2 content forms x 6 K x {top level, inside a static block w} x syntaxes. " +
 			"(nest-3level) dynamic x > z > v (z, v each dynamic or static) with 6 iterator-name schemes (all default; outer=middle; outer=inner with another middle; all equal; inner = default name of middle; middle = default name of outer), innermost content using key and value of every name in scope, for_each of z / v from a global or from the nearest iterator, Kx in {list,tuple} x Kz, Kv in {list,tuple,block,map with labels from outer and own iterator} x syntaxes. " +
-			"Every case additionally: same expanded body decoded twice; expansion with context A, B (other values), A again. distinct = distinct (shape, decoded value)",
+			"Every case additionally: same expanded body decoded twice; expansion with context A, then B (same names, other values; compared with B's own write-out), then A again. distinct = distinct (shape, decoded value)",
 		Assumptions: []string{
 			"hclsyntax / json parsing, expression evaluation and go-cty are trusted; hcldec decoding of a static body is the subject of C08 and used on both sides",
 			"iteration order and keys are those of go-cty (lists/tuples by index, maps/objects by sorted key, sets in go-cty's set order with key = value)",
